@@ -78,7 +78,7 @@ def gen_layout(rng, tier="quick"):
     for d in dims:
         if kinds[d] == "multi":
             sizes[d] = 4
-    container = str(rng.choice(["DA", "DA", "DS-same", "DS-diff", "LIST", "LIST-ds", "LIST-revorder"]))
+    container = str(rng.choice(["DA", "DA", "DS-same", "DS-diff", "LIST", "LIST-ds", "LIST-revorder", "LIST-sperm"]))
     if container == "DS-diff" and nf < 2:
         container = "DS-same"
     return {
@@ -111,6 +111,13 @@ def build(layout):
     if c == "LIST-ds":
         ds = xr.Dataset({"a": da, "b": build_da(perm, kinds, sizes, np.random.default_rng(layout["lseed"]), base=1000, name="b", extra_coord=ec)})
         return [ds, build_da(perm, kinds, sizes, np.random.default_rng(layout["lseed"]), base=3000, name="w", extra_coord=ec)]
+    if c == "LIST-sperm":
+        # same sample labels, stored in another order in the second item
+        b = build_da(perm, kinds, sizes, np.random.default_rng(layout["lseed"]), base=3000, name="w", extra_coord=ec)
+        s0 = layout["sd"][0]
+        if kinds[s0] != "multi":
+            b = b.isel({s0: np.random.default_rng(layout["lseed"]).permutation(b.sizes[s0])})
+        return [da, b]
     if c == "LIST-revorder":
         return [da, build_da(perm[::-1], kinds, sizes, np.random.default_rng(layout["lseed"]), base=3000, name="w", extra_coord=ec)]
     raise ValueError(c)
